@@ -1263,6 +1263,7 @@ func (ls *LState) Close() {
 		file.Close()
 		os.Remove(file.Name())
 	}
+	closeOpenFiles(ls)
 	ls.stack.FreeAll()
 	ls.stack = nil
 }
